@@ -285,6 +285,70 @@ func (w *world) apply(o wop) error {
 		}
 		_, err = w.post(fmt.Sprintf("node/%s/lm/cleave/%d", u, b), u64s([]uint64{svs[o.B%len(svs)]}))
 		w.rebuilt++
+	case "lmundo":
+		// an edit in one version undone in a descendant version: (merge so a body has two supervoxels,) cleave a
+		// supervoxel off, commit, new version, merge the cleaved body back
+		if !open {
+			return nil
+		}
+		bs, e := w.bodies(u)
+		if e != nil {
+			return e
+		}
+		if len(bs) == 0 {
+			return nil
+		}
+		b := bs[o.A%len(bs)]
+		svs, e := w.supervoxels(u, b)
+		if e != nil {
+			return e
+		}
+		if len(svs) < 2 && len(bs) >= 2 {
+			m := bs[(o.A+1+o.B%(len(bs)-1))%len(bs)]
+			if m == b {
+				return nil
+			}
+			if _, e = w.post("node/"+u+"/lm/merge", u64s([]uint64{b, m})); e != nil {
+				return e
+			}
+			if e = w.c.Settle(false); e != nil {
+				return e
+			}
+			if svs, e = w.supervoxels(u, b); e != nil {
+				return e
+			}
+		}
+		if len(svs) < 2 {
+			return nil
+		}
+		sv := svs[o.C%len(svs)]
+		if o.C%3 != 0 {
+			for _, s := range svs {
+				if s == b {
+					sv = s
+				}
+			}
+		}
+		r, e := w.post(fmt.Sprintf("node/%s/lm/cleave/%d", u, b), u64s([]uint64{sv}))
+		if e != nil {
+			return e
+		}
+		var cl struct{ CleavedLabel uint64 }
+		if !r.OK() || json.Unmarshal(r.Body, &cl) != nil || cl.CleavedLabel == 0 {
+			return nil
+		}
+		w.rebuilt++
+		if e = w.c.Settle(false); e != nil {
+			return e
+		}
+		if e = w.apply(wop{Kind: "newversion", Node: o.Node}); e != nil {
+			return e
+		}
+		child := w.nodes[len(w.nodes)-1]
+		if child == u || w.locked[child] {
+			return nil
+		}
+		_, err = w.post("node/"+child+"/lm/merge", u64s([]uint64{b, cl.CleavedLabel}))
 	case "lmrenumber":
 		bs, e := w.bodies(u)
 		if e != nil {
@@ -533,7 +597,7 @@ func isHex(s string) bool {
 func genC03(t *rapid.T) c03Case {
 	var c c03Case
 	kinds := []string{"kvput", "kvput", "kvdel", "commit", "note", "log", "newversion", "newversion", "branch", "dagmerge",
-		"lmingest", "lmmerge", "lmmerge", "lmcleave", "lmcleave", "lmsplitsv", "lmsplitsv", "lmrenumber",
+		"lmingest", "lmmerge", "lmmerge", "lmcleave", "lmcleave", "lmsplitsv", "lmsplitsv", "lmrenumber", "lmundo",
 		"annpost", "annpost", "anndel", "annmove", "njpost", "njpost", "njpost", "njdel", "roipost", "newinst", "delinst"}
 	// start with content so restarts have something to rebuild
 	c.Ops = append(c.Ops, wop{Kind: "lmingest", Node: 0, A: rapid.IntRange(0, 20).Draw(t, "s"), C: rapid.IntRange(0, 5).Draw(t, "nl")})
